@@ -64,6 +64,7 @@ def _composites(tier):
         ("struct", [["k", I8], ["v", ("switch", "k", [[1, I8], [7, V]], I16l)]]),
         ("struct", [["sig", ("const", "ab")], ["len", ("rebuildlen", I8, "body")], ["body", ("bytesctx", "len", None)]]),
         ("struct", [["w", I8], ["v", ("bytesintctx", "w", True)], ["t", I8]]), ("struct", [["w", I8], ["v", ("bytesintctx", "w", False)]]),
+        ("adapt", I8, "inc"), ("adapt", I8, "xor"), ("adapt", ("fmt", "Int16sb"), "cls"), ("struct", [["n", ("adapt", I8, "inc")], ["d", ("bytesctx", "n", 3)]]),
         ("seq", [I8, V, ("flag",)]),
         ("focusedseq", "b", [["a", ("const", "00")], ["b", I16l], ["c", ("const", "ff")]]),
         ("array", 3, I16b), ("array", 0, I8), ("array", 2, V),
